@@ -6,7 +6,7 @@ from hypothesis import strategies as st
 from .. import gens, model, printing, rfc, build
 from ..core import Prop, Violation
 from ..lib import flag_names
-from .c15 import utils_documents, UKEYS
+from .c15 import utils_documents, UKEYS, HUGE
 
 OPNAMES = [b"add", b"remove", b"replace", b"test", b"copy", b"move"]
 
@@ -128,7 +128,7 @@ def one_op(draw, cur):
         n = len(rfc.node_at(cur, a)[1])
         if bad == "missing_index":
             o = draw(st.sampled_from([b"remove", b"replace", b"test", b"copy"]))
-            loc = ptr(a) + b"/%d" % (n + draw(st.integers(0, 2)))
+            loc = ptr(a) + b"/%d" % (draw(st.sampled_from([n, n + 1, n + 2, n, n] + [h + k for h in HUGE for k in range(min(n, 2) + 1)])))
             return (full(o, b"/zz", frm=loc) if o == b"copy" else full(o, loc)), bad
         if bad == "index_beyond":
             return full(b"add", ptr(a) + b"/%d" % (n + 1 + draw(st.integers(0, 3)))), bad
@@ -230,8 +230,17 @@ class C16(Prop):
 
     def run_case(self, lib, case, stats):
         doc, patch = case["doc"], case["patch"]
-        dp = printing.build_tree(lib, doc)
-        pp = printing.build_tree(lib, patch)
+        import random
+        rnd = random.Random(model.count_nodes(doc) * 7919 + model.count_nodes(patch))
+        arena = printing.Arena(lib)
+        if rnd.random() < 0.35:
+            # ownership flags (constant keys, string references) must not matter to patch application
+            dp = printing.build_flagged(lib, doc, arena, rnd)
+            pp = printing.build_flagged(lib, patch, arena, rnd)
+            stats.cls("ownership_flags_variant")
+        else:
+            dp = printing.build_tree(lib, doc)
+            pp = printing.build_tree(lib, patch)
         try:
             if case["kind"] == "robustness":
                 f = lib.cJSONUtils_ApplyPatchesCaseSensitive if case.get("cs", True) else lib.cJSONUtils_ApplyPatches
@@ -290,6 +299,7 @@ class C16(Prop):
         finally:
             lib.cJSON_Delete(dp)
             lib.cJSON_Delete(pp)
+            arena.close()
             if lib.ledger_live() != 0:
                 n = lib.ledger_live()
                 raise Violation("%d block(s) still allocated after deleting document and patch" % n, key="leak")
